@@ -40,6 +40,8 @@ CONSTANTS
     CacheSize,            \* capacity of the event cache ring
     SubCap,               \* capacity of a subscriber buffer
     SeqDetail,            \* TRUE: cache insert is a separate sequencer step
+    TsoDetail,            \* TRUE (needs SeqDetail): tso.Commit is two steps: store the committed revision and load the
+                          \*       deal revision; then compare-and-swap the deal revision (tso.go:58-70)
     Readers,              \* reader processes (strings)
     ReadRevs,             \* revisions a read may name (0 = the current one)
     MaxReads,             \* reads per reader
@@ -70,6 +72,7 @@ VARIABLES
     slot,                 \* [rev -> NoEv | event]
     wpc, wloc, wops, wi,  \* writers: pc, locals, operation list, index of current op
     seqpc, seqev, batch,  \* sequencer
+    tsopre,               \* the deal revision tso.Commit loaded (TsoDetail)
     chan,                 \* batches flushed by the sequencer, not yet broadcast
     cache,                \* event cache (sequence, newest last, length <= CacheSize)
     retryQ, rpc, rloc,    \* repair queue and repair loop
@@ -89,14 +92,14 @@ VARIABLES
     hist
 
 wvars   == <<wpc, wloc, wops, wi>>
-seqvars == <<seqpc, seqev, batch>>
+seqvars == <<seqpc, seqev, batch, tsopre>>
 xvars   == <<subs, xpc, xloc, xreq, outClosed, delivered>>
 rvars   == <<retryQ, rpc, rloc>>
 rdvars  == <<rdpc, rdloc, rdreq, reads>>
 cvars   == <<cpc, cloc, creq, cn, fin>>
 store   == <<idx, ver, hver>>
 vars    == <<idx, ver, hver, floor, dealt, committed, slot, wpc, wloc, wops, wi, seqpc, seqev, batch,
-             chan, cache, retryQ, rpc, rloc, faults, subs, xpc, xloc, xreq, outClosed,
+             tsopre, chan, cache, retryQ, rpc, rloc, faults, subs, xpc, xloc, xreq, outClosed,
              delivered, emitted, kinit, acked, maxRet, rdpc, rdloc, rdreq, reads, cpc, cloc, creq, cn, fin, hist>>
 
 MaxRev == Base + OpsPer * Cardinality(Writers) * 2 + 4 + FaultBudget   \* every attempt and every repair gets one
@@ -138,7 +141,7 @@ Init ==
     /\ wpc = [w \in Writers |-> "idle"]
     /\ wloc = [w \in Writers |-> WLocInit]
     /\ wi = [w \in Writers |-> 1]
-    /\ seqpc = "poll" /\ seqev = NoEv /\ batch = << >>
+    /\ seqpc = "poll" /\ seqev = NoEv /\ batch = << >> /\ tsopre = 0
     /\ chan = << >> /\ cache = << >>
     /\ retryQ = << >> /\ rpc = "idle" /\ rloc = [ev |-> NoEv, rev |-> 0, val |-> "-"]
     /\ faults = 0
@@ -434,11 +437,14 @@ SeqPoll ==
     /\ LET e == slot[committed + 1] IN
        /\ slot' = [slot EXCEPT ![e.rev] = NoEv]
        /\ committed' = e.rev
+       /\ tsopre' = IF TsoDetail THEN dealt ELSE tsopre
        /\ IF ~e.valid
           THEN /\ retryQ' = IF e.unc THEN Append(retryQ, e) ELSE retryQ
-               /\ UNCHANGED <<seqpc, seqev, batch, cache>>
+               /\ seqpc' = IF TsoDetail THEN "tso" ELSE seqpc
+               /\ UNCHANGED <<seqev, batch, cache>>
           ELSE IF SeqDetail
-               THEN /\ seqpc' = "cacheadd" /\ seqev' = e
+               THEN /\ seqpc' = IF TsoDetail THEN "tso" ELSE "cacheadd"
+                    /\ seqev' = e
                     /\ UNCHANGED <<batch, cache, retryQ>>
                ELSE /\ cache' = CacheAdd(cache, WatchEv(e))
                     /\ batch' = Append(batch, WatchEv(e))
@@ -447,6 +453,17 @@ SeqPoll ==
     /\ H("seq", "SeqPoll", "seq.poll")
     /\ UNCHANGED <<store, floor, dealt, wvars, chan, rpc, rloc, faults, xvars, acked, maxRet, kinit, rdvars, cvars>>
 
+\* second half of tso.Commit: "in case of leader transfer" the deal revision is raised to the committed one,
+\* by compare-and-swap against the value loaded before -- a revision dealt in between must survive
+\*                                                                                gate: tso.commit
+SeqTso ==
+    /\ seqpc = "tso"
+    /\ dealt' = IF tsopre < committed /\ dealt = tsopre THEN committed ELSE dealt
+    /\ tsopre' = 0
+    /\ seqpc' = IF seqev = NoEv THEN "poll" ELSE "cacheadd"
+    /\ H("seq", "SeqTso", "tso.commit")
+    /\ UNCHANGED <<store, floor, committed, slot, wvars, seqev, batch, chan, cache, rvars, faults, xvars, acked, maxRet, emitted, kinit, rdvars, cvars>>
+
 \* insert into the event cache                                              gate: seq.cacheadd
 SeqCacheAdd ==
     /\ seqpc = "cacheadd"
@@ -454,7 +471,7 @@ SeqCacheAdd ==
     /\ batch' = Append(batch, WatchEv(seqev))
     /\ seqpc' = "poll" /\ seqev' = NoEv
     /\ H("seq", "SeqCacheAdd", "seq.cacheadd")
-    /\ UNCHANGED <<store, floor, dealt, committed, slot, wvars, chan, rvars, faults, xvars, acked, maxRet, emitted, kinit, rdvars, cvars>>
+    /\ UNCHANGED <<store, floor, dealt, committed, slot, wvars, tsopre, chan, rvars, faults, xvars, acked, maxRet, emitted, kinit, rdvars, cvars>>
 
 \* next slot empty and something pending: hand the batch to the hub          gate: seq.poll
 SeqFlush ==
@@ -463,9 +480,9 @@ SeqFlush ==
     /\ chan' = Append(chan, batch)
     /\ batch' = << >>
     /\ H("seq", "SeqFlush", "seq.poll")
-    /\ UNCHANGED <<store, floor, dealt, committed, slot, wvars, seqpc, seqev, cache, rvars, faults, xvars, acked, maxRet, emitted, kinit, rdvars, cvars>>
+    /\ UNCHANGED <<store, floor, dealt, committed, slot, wvars, seqpc, seqev, tsopre, cache, rvars, faults, xvars, acked, maxRet, emitted, kinit, rdvars, cvars>>
 
-SeqNext == SeqPoll \/ SeqCacheAdd \/ SeqFlush
+SeqNext == SeqPoll \/ SeqTso \/ SeqCacheAdd \/ SeqFlush
 
 -----------------------------------------------------------------------------
 \* REPAIR LOOP  (retry.asyncFifoRetryImpl)
@@ -930,6 +947,6 @@ Final == [idx |-> idx, ver |-> ver, floor |-> floor, committed |-> committed, de
 Behaviour == [kinit |-> kinit, wops |-> wops, xreq |-> xreq, steps |-> hist, final |-> Final]
 Dump == fin => PrintT(<<"BEHAVIOUR", ToJson(Behaviour)>>)
 
-View == <<idx, ver, floor, dealt, committed, slot, wpc, wloc, wops, wi, seqpc, seqev, batch, chan, cache,
+View == <<idx, ver, floor, dealt, committed, slot, wpc, wloc, wops, wi, seqpc, seqev, batch, tsopre, chan, cache,
           retryQ, rpc, rloc, faults, subs, xpc, xloc, xreq, outClosed, delivered, emitted, acked, maxRet, cpc, cloc, cn, rdpc, rdloc, rdreq, reads>>
 =============================================================================
